@@ -1,6 +1,7 @@
 package checks
 
 import (
+	"os"
 	"errors"
 	"fmt"
 	"sort"
@@ -110,6 +111,7 @@ type probeResult struct {
 	res   string // canonical rendering of the answer
 	err   error
 	wrote bool // the API call is a write operation
+	disk  uint64 // digest of the durable contents after the fault-free execution (dry run only)
 }
 
 func fmtp(ps []ref.Pair) string {
@@ -468,10 +470,8 @@ func execC17History(p *drv.Plan) *Out {
 					cls = "prune"
 				}
 				vv := mk(s, "C17.reopen-old-or-new", "bad-state-after-reopen", site, fmt.Sprintf("neither the state before (%s) nor after (%s)", firstLine(vOld.Detail), firstLine(vNew.Detail)))
-				if s.Op == drv.OpLVFO || s.Op == drv.OpDVF {
-					if t := intermediateRollback(w2, "C17", "C17.reopen-old-or-new", s.Op, preM, preT, nT.Latest); t != 0 {
-						vv = mk(s, "C17.reopen-old-or-new", "intermediate-version", site, fmt.Sprintf("the failed rollback from version %d to version %d left the store at version %d: every remaining version is intact, but it is neither the state before nor the state after", preT.Latest, nT.Latest, t))
-					}
+				if what, mid := intermediateState(w2, "C17", "C17.reopen-old-or-new", s.Op, s.Op, preM, preT, nM, nT); mid {
+					vv = mk(s, "C17.reopen-old-or-new", "intermediate-version", site, "the failed operation left part of its work behind: "+what+"; every remaining version is intact, but it is neither the state before nor the state after")
 				}
 				vv.Class = cls + "/" + flushState + "/" + fired[0].Fault.Kind
 				out.Violations = append(out.Violations, vv)
@@ -637,6 +637,7 @@ func execC17(p *drv.Plan) *Out {
 		w0.Sim.BeginStep(s.ID)
 		r0 := runProbe(w0, s)
 		counts := w0.Sim.Counts()
+		r0.disk = w0.Sim.Digest()
 		w0.Cleanup()
 		if r0.res == "skip" || r0.res == "unknown" {
 			continue
@@ -708,16 +709,35 @@ func oneFault(p *drv.Plan, w *drv.World, base *sim.SimDB, baseDigest uint64, for
 	w2.Sim.Arm(faults)
 	logBefore := w2.Sim.LogLen()
 	api := strings.TrimPrefix(s.Op, "p.")
+	// the fault a violation is attributed to: the first one that actually fired
+	// (with several armed faults the first armed one may never be reached)
+	var fired []sim.Fired
+	fKind := func() string {
+		if len(fired) > 0 {
+			return fired[0].Fault.Kind
+		}
+		return pos[0].kind
+	}
+	fDesc := func() string {
+		if len(fired) == 0 {
+			return fmt.Sprintf("%s #%d", pos[0].kind, pos[0].n)
+		}
+		var parts []string
+		for _, f := range fired {
+			parts = append(parts, fmt.Sprintf("%s #%d", f.Fault.Kind, f.Fault.N))
+		}
+		return strings.Join(parts, " and ")
+	}
 	mk := func(oracle, symptom, site, detail string) *drv.Violation {
-		return &drv.Violation{Prop: "C17", Oracle: oracle, Symptom: symptom, Class: api + "/" + pos[0].kind, Site: site, StepID: s.ID,
-			Detail: fmt.Sprintf("%s with storage call %s #%d failing: %s", s.String(), pos[0].kind, pos[0].n, detail)}
+		return &drv.Violation{Prop: "C17", Oracle: oracle, Symptom: symptom, Class: api + "/" + fKind(), Site: site, StepID: s.ID,
+			Detail: fmt.Sprintf("%s with storage call %s failing: %s", s.String(), fDesc(), detail)}
 	}
 	var r1 probeResult
 	pv := w2.Guard("C17", "C17.no-panic", api+"/"+pos[0].kind, func() *drv.Violation {
 		r1 = runProbe(w2, s)
 		return nil
 	})
-	fired := w2.Sim.Fired()
+	fired = w2.Sim.Fired()
 	w2.Sim.Disarm()
 	if pv != nil {
 		site := pv.Site
@@ -725,7 +745,8 @@ func oneFault(p *drv.Plan, w *drv.World, base *sim.SimDB, baseDigest uint64, for
 			site = fired[0].Site
 		}
 		pv.Site = site
-		pv.Detail = fmt.Sprintf("%s with storage call %s #%d failing: %s", s.String(), pos[0].kind, pos[0].n, pv.Detail)
+		pv.Detail = fmt.Sprintf("%s with storage call %s failing: %s", s.String(), fDesc(), pv.Detail)
+		pv.Class = api + "/" + fKind()
 		return pv
 	}
 	if len(fired) == 0 {
@@ -774,6 +795,11 @@ func oneFault(p *drv.Plan, w *drv.World, base *sim.SimDB, baseDigest uint64, for
 		if r1.res != r0.res {
 			return mk("C17.write-not-successful", "wrong-answer", site, fmt.Sprintf("succeeded with %.120q, fault-free %.120q", r1.res, r0.res))
 		}
+		// ... and the fault-free durable result: an operation that absorbed the
+		// failed read and did part of its work, or other work, was not complete
+		if w2.Sim.Digest() != r0.disk {
+			return mk("C17.write-not-successful", "different-store-after-success", site, "the operation reported success although a storage read failed, and the durable contents differ from those of the fault-free execution: "+storeDiff(w0disk(fork, prepare, s), w2.Sim))
+		}
 		return nil
 	}
 	// the operation failed: discard the handle, reopen; old or new state
@@ -788,10 +814,17 @@ func oneFault(p *drv.Plan, w *drv.World, base *sim.SimDB, baseDigest uint64, for
 		if len(rec.Ops) > 0 {
 			flushState = "partial-flush"
 		}
+		if os.Getenv("VERIF_DEBUG_INTERMEDIATE") != "" {
+			fmt.Fprintf(os.Stderr, "pos=%v fired=%v err=%v\n", pos, fired, r1.err)
+			for _, o := range rec.Ops {
+				fmt.Fprintf(os.Stderr, "write: del=%v %x = %x\n", o.Del, o.K, o.V)
+			}
+			fmt.Fprintf(os.Stderr, "--\n")
+		}
 	}
 	mkR := func(symptom, detail string) *drv.Violation {
 		v := mk("C17.reopen-old-or-new", symptom, site, detail)
-		v.Class = api + "/" + flushState + "/" + pos[0].kind
+		v.Class = api + "/" + flushState + "/" + fKind()
 		return v
 	}
 	disk := w2.Sim
@@ -839,30 +872,51 @@ func oneFault(p *drv.Plan, w *drv.World, base *sim.SimDB, baseDigest uint64, for
 	if vNew == nil {
 		return nil
 	}
-	if s.Op == "p.lvfo" {
-		if t := intermediateRollback(w3, "C17", "C17.reopen-old-or-new", api, oldM, oldT, newT.Latest); t != 0 {
-			return mkR("intermediate-version", fmt.Sprintf("the failed rollback from version %d to version %d left the store at version %d: every remaining version is intact, but it is neither the state before nor the state after", oldT.Latest, newT.Latest, t))
-		}
+	if what, mid := intermediateState(w3, "C17", "C17.reopen-old-or-new", api, s.Op, oldM, oldT, newM, newT); mid {
+		return mkR("intermediate-version", "the failed operation left part of its work behind: "+what+"; every remaining version is intact, but it is neither the state before nor the state after")
 	}
 	return mkR("bad-state-after-reopen", fmt.Sprintf("after the failed operation the store reopens to neither the state before (%s) nor after (%s)", firstLine(vOld.Detail), firstLine(vNew.Detail)))
 }
 
-// intermediateRollback reports the version at which an interrupted rollback
-// from the state (oldM, oldT) down to newLatest stopped, if the reopened store w
-// is exactly the state "rolled back to that version" (0 otherwise).
-func intermediateRollback(w *drv.World, prop, oracle, cls string, oldM *ref.VMap, oldT *ref.Tree, newLatest int64) int64 {
-	for t := oldT.Latest - 1; t > newLatest; t-- {
-		if !oldM.Has(t) {
-			continue
-		}
-		w.M, w.T = oldM.Clone(), oldT.Clone()
-		w.M.RollbackTo(t)
-		w.T.RollbackTo(t)
-		if v := w.Guard(prop, oracle, cls, func() *drv.Violation { return auditCrashState(w) }); v == nil {
-			return t
+// w0disk re-executes probe s fault-free and returns the resulting disk.
+func w0disk(fork func() *drv.World, prepare func(*drv.World, drv.Step), s drv.Step) *sim.SimDB {
+	w0 := fork()
+	prepare(w0, s)
+	w0.Sim.BeginStep(s.ID)
+	runProbe(w0, s)
+	d := w0.Sim
+	w0.Cleanup()
+	return d
+}
+
+// storeDiff describes the first few differences between two disks.
+func storeDiff(want, got *sim.SimDB) string {
+	a, b := want.Dump(), got.Dump()
+	am := map[string]string{}
+	for _, e := range a {
+		am[string(e.K)] = string(e.V)
+	}
+	bm := map[string]string{}
+	for _, e := range b {
+		bm[string(e.K)] = string(e.V)
+	}
+	var out []string
+	for _, e := range a {
+		if v, ok := bm[string(e.K)]; !ok {
+			out = append(out, fmt.Sprintf("missing %x", e.K))
+		} else if v != string(e.V) {
+			out = append(out, fmt.Sprintf("differs %x", e.K))
 		}
 	}
-	return 0
+	for _, e := range b {
+		if _, ok := am[string(e.K)]; !ok {
+			out = append(out, fmt.Sprintf("extra %x", e.K))
+		}
+	}
+	if len(out) > 6 {
+		out = append(out[:6], fmt.Sprintf("... %d in all", len(out)))
+	}
+	return strings.Join(out, ", ")
 }
 
 // importUnderFaults exports a version from the base disk (fault-free) and
